@@ -44,6 +44,8 @@ def series_data(entry, seed, container="series", start=3):
         y[5] = np.nan
         y[17] = np.nan
         y[11] = 90.0      # an outlier
+        if entry.get("placeholder") is not None:
+            y[5] = y[17] = entry["placeholder"]        # missing values marked by a placeholder instead of NaN
     idx = pd.RangeIndex(start, start + n)
     if (container == "frame" and entry.get("missing")) or entry.get("frame"):
         return pd.DataFrame({"a": y, "b": y[::-1].copy()}, index=idx)
@@ -106,8 +108,15 @@ def run_scenario(entry, plan, container, seed, tid):
             if seed % 2:
                 # an absolute in-sample horizon with the very values of the relative one above
                 from sktime.forecasting.base import ForecastingHorizon
-                return est.predict(ForecastingHorizon(pd.Index([4, 5, 6]), is_relative=False))
-            return est.predict([-2, -1, 0, 1])
+                r = est.predict(ForecastingHorizon(pd.Index([4, 5, 6]), is_relative=False))
+            else:
+                r = est.predict([-2, -1, 0, 1])
+            # asked again without a horizon, the forecaster answers for the horizon it was just given
+            r2 = est.predict()
+            if list(r2.index) != list(r.index) or not np.array_equal(r2.values, r.values, equal_nan=True):
+                raise AssertionError("predict() right after predict(fh) with in-sample steps is indexed %s instead of %s"
+                                     % (list(r2.index), list(r.index)))
+            return r
         return getattr(est, m)(Xarg if Xa is None else Xa)
     import joblib
 
